@@ -112,15 +112,14 @@ impl<K: Hash + Ord + PartialEq + Clone, V: Clone> CompactOrderedHashMap<K, V> {
                 }
             }
             _ => {
-                let indexed = entries
-                    .into_iter()
-                    .enumerate()
-                    .map(|(index, (k, v))| {
-                        let indexed_entry = IndexedEntry { v, index };
-                        (k, indexed_entry)
-                    })
-                    .collect::<HashMap<_, _>>();
-                S::NEntries(indexed)
+                // five or more entries, or a repeated key among fewer: insert one by one so that a
+                // repeated key overwrites in place (as from_iter does) and the stored indices stay
+                // exactly 0..len-1
+                let mut map = S::empty();
+                for (k, v) in entries {
+                    map.insert(k, v);
+                }
+                map
             }
         }
     }
